@@ -734,9 +734,15 @@ def stream_refit(chk, i, rng):
         chk.dist["refit:wall-limit"] += 1
         chk.count(None)
         return
-    est.set_params(groups=g2)
+    gv = group_variants(g2, rng)
+    g2lab, g2v = gv[int(rng.integers(0, len(gv)))]       # tuples / int32 / int64 / read-only arrays: same partition as the list spelling
+    g2before, X2before = snapshot(g2v), snapshot(X2)
+    est.set_params(groups=g2v)
     with Spy(est) as spy:
         ok = run(mode2, X2)
+    if not (same_bits(g2before, g2v) and same_bits(X2before, X2)):
+        chk.fail("refit:argument-modified", f"{mode2} modified the caller's groups object (given as {g2lab}) or X", replay, layer="L3")
+    chk.dist["refit:groups-as=" + g2lab] += 1
     if not ok:
         chk.dist["refit:wall-limit"] += 1
         chk.count(None)
@@ -746,7 +752,7 @@ def stream_refit(chk, i, rng):
     sel, nun, moved, multi = state_checks(chk, "refit", est, X2, case2, rng, replay)
     # history independence of the shrinkage: a fresh estimator with the same hyper-parameters reaches the same weights
     fresh = build(case2, gem_kw)
-    fresh.set_params(**{k: v for k, v in est.get_params().items() if k != "gemini"})
+    fresh.set_params(**{k: v for k, v in est.get_params().items() if k not in ("gemini", "groups")})       # groups: the list spelling of build()
     signal.signal(signal.SIGALRM, _alarm)
     signal.alarm(10)
     try:
@@ -894,6 +900,17 @@ def run_alarmed(fn, limit=10):
         signal.alarm(0)
 
 
+OBSERVED = {}
+
+
+def observe(chk, tag, text):
+    """a corner where the UNCHANGED tree deviates: reported to the coordinator, recorded (not failed) until a disposition exists"""
+    chk.dist["observation:" + tag] += 1
+    if tag not in OBSERVED:
+        OBSERVED[tag] = text
+        chk.notes.append(f"observation [{tag}]: {text}")
+
+
 def stream_repr(chk, i, rng):
     """metamorphic: the same values in another representation (dtype, memory order, view, read-only, list/tuple; groups as
     arrays / tuples; precomputed affinity likewise) give the same fit / path / predictions, raise nothing new, and leave the
@@ -943,29 +960,48 @@ def stream_repr(chk, i, rng):
         glab, gv = gvs[int(rng.integers(0, len(gvs)))]
         key = f"repr:{mode}"
         rp = dict(replay, X_as=lab, y_as=ylab, groups_as=glab)
+        # corners where the unchanged tree deviates (reported; observations until a disposition exists)
+        obs_tuple = False       # groups as tuples: fixed in /repo 1a7c87e (check_groups returns lists) -> a hard expectation like the arrays
+        obs_afflist = ylab in ("list", "tuple") and mode == "path"        # compute_val_score slices y[j:j+bs][:, j:j+bs]
+        tol = 1e-5 if (lab == "float32" or ylab == "float32") else 1e-9     # float32 data: path computes the affinity in float32
         before = (snapshot(Xv), snapshot(yv), snapshot(gv))
         try:
             ok, out = run_alarmed(lambda: train(Xv, yv, gv))
         except Exception as e:  # noqa
-            chk.fail(key + ":new-exception", f"{mode} on X as {lab}, affinity as {ylab}, groups as {glab} raises {type(e).__name__}: {str(e)[:150]} "
-                     f"while the float64 C-contiguous call succeeds", rp, layer="L3")
+            if obs_tuple:
+                observe(chk, "groups-as-tuples", f"groups given as a list of tuples, e.g. {name}(groups=[(0, 1)]), are accepted (groups_ keeps the tuples) but "
+                        f"W[g] then indexes multi-dimensionally: wrong rows are shrunk, other rows stay np.empty garbage; here {mode} raised {type(e).__name__}")
+            elif obs_afflist and isinstance(e, TypeError):
+                observe(chk, "path-affinity-as-list", f"{name}.path(X, y=<precomputed affinity as list/tuple of rows>) raises TypeError ({str(e)[:80]}) "
+                        f"in compute_val_score while fit(X, y=<the same list>) succeeds")
+            else:
+                chk.fail(key + ":new-exception", f"{mode} on X as {lab}, affinity as {ylab}, groups as {glab} raises {type(e).__name__}: {str(e)[:150]} "
+                         f"while the float64 C-contiguous call succeeds", rp, layer="L3")
             continue
         if not ok:
+            if obs_tuple:
+                observe(chk, "groups-as-tuples", f"groups given as a list of tuples, e.g. {name}(groups=[(0, 1)]): path did not terminate within the wall limit")
             chk.dist["repr:wall-limit"] += 1
             continue
         est, res = out
         if not (same_bits(before[0], Xv) and same_bits(before[1], yv) and same_bits(before[2], gv)):
             chk.fail(key + ":argument-modified", f"{mode} modified its arguments (X as {lab}, affinity as {ylab}, groups as {glab})", rp, layer="L3")
-        if not all(close_arrays(a, b) for a, b in zip(est._get_weights(), ref_w)):
+        if obs_tuple:
+            if not all(close_arrays(a, b, tol) for a, b in zip(est._get_weights(), ref_w)):
+                observe(chk, "groups-as-tuples", f"groups given as a list of tuples, e.g. {name}(groups=[(0, 1)]), are accepted (groups_ keeps the tuples) but W[g] then "
+                        f"indexes multi-dimensionally: {mode} silently ends in other weights than with groups=[[0, 1]]")
+            chk.dist["repr:groups=tuples"] += 1
+            continue
+        if not all(close_arrays(a, b, tol) for a, b in zip(est._get_weights(), ref_w)):
             chk.fail(key + ":weights", f"{mode} on X as {lab} / affinity as {ylab} / groups as {glab} ends in other weights than on the float64 C-contiguous "
                      f"reference (max diff {max(float(np.abs(np.asarray(a) - b).max()) for a, b in zip(est._get_weights(), ref_w))})", rp, layer="L3")
         elif [int(j) for j in est.get_selection()] != ref_sel:
             diff = set(ref_sel) ^ set(int(j) for j in est.get_selection())
-            if any(max(np.linalg.norm(skip_of(est)[j]), np.linalg.norm(skip_of(ref)[j])) > 1e-9 for j in diff):
+            if any(max(np.linalg.norm(skip_of(est)[j]), np.linalg.norm(skip_of(ref)[j])) > 1e3 * tol for j in diff):
                 chk.fail(key + ":selection", f"get_selection differs: {[int(j) for j in est.get_selection()]} vs reference {ref_sel}", rp, layer="L3")
         if jgroups(est.groups_) != jgroups(ref.groups_):
             chk.fail(key + ":groups_", f"groups_ {jgroups(est.groups_)} differs from the reference's {jgroups(ref.groups_)} (groups as {glab})", rp, layer="L3")
-        if mode == "path" and ([int(v) for v in res[4]] != [int(v) for v in ref_res[4]] or not close_arrays(res[3], ref_res[3])):
+        if mode == "path" and ([int(v) for v in res[4]] != [int(v) for v in ref_res[4]] or not close_arrays(res[3], ref_res[3])) and tol == 1e-9:
             chk.fail(key + ":history", f"path history differs: n_features {res[4]} vs {ref_res[4]}", rp, layer="L3")
         if not labels_agree(ref_p, ref.labels_, est.labels_):
             chk.fail(key + ":labels", "labels_ differ from the reference's on clearly separated samples", rp, layer="L3")
@@ -991,7 +1027,7 @@ def stream_repr(chk, i, rng):
             continue
         if not same_bits(before, Xv):
             chk.fail("repr:predict:argument-modified", f"a predict-type call modified X (as {lab})", rp, layer="L3")
-        if not close_arrays(p, ref_p, 1e-12) or not labels_agree(ref_p, ref.predict(X), lb) or not close(sc, sc_ref, 1e-9):
+        if not close_arrays(p, ref_p, 1e-12) or not labels_agree(ref_p, ref.predict(X), lb) or not close(sc, sc_ref, 5e-3 if lab == "float32" else 1e-9):   # float32 X: the kernel of score is float32, sqrt near 0 amplifies
             chk.fail("repr:predict:value", f"predict_proba / predict / score on X as {lab} differ from the float64 reference "
                      f"(max diff {float(np.abs(np.asarray(p) - ref_p).max())}, score {sc} vs {sc_ref})", rp, layer="L3")
     chk.traces += 1
@@ -1085,14 +1121,15 @@ def stream_corner(chk, i, rng):
         chk.count(("corner", kind, name, thr, gkind))
         return
     est = impl.make(name, n_clusters=K, groups=gs, **kw)
-    for mode in ("fit", "path"):
+    # path() started at alpha = 0 never leaves alpha = 0 (0 * multiplier): C07's known finding F12, not re-run here
+    for mode in (("fit",) if kind == "alpha=0" else ("fit", "path")):
         key = f"corner:{kind}:{mode}"
         rp = dict(replay, mode=mode)
         before = (snapshot(X), snapshot(gs))
         with Spy(est) as spy:
             ok, res = run_alarmed(lambda: est.fit(X) if mode == "fit" else est.path(X, **pkw))
         if not ok:
-            chk.dist["corner:wall-limit"] += 1
+            chk.dist[f"corner:wall-limit:{kind}:{mode}:{name}"] += 1
             continue
         if not (same_bits(before[0], X) and same_bits(before[1], gs)):
             chk.fail(key + ":argument-modified", f"{mode} modified X or groups", rp, layer="L3")
